@@ -43,6 +43,7 @@ type camera struct {
 	rejectedCorrect bool
 	badAuth         []string
 	played          bool
+	playStatus200   bool // the status line of the PLAY answer said 200 (even if the answer then broke off)
 	faultsTaken     []string
 	done            bool
 }
@@ -162,6 +163,9 @@ func (c *camera) run() {
 				c.done = true
 				return
 			case "eof-mid-body":
+				if req.Method == "PLAY" {
+					c.playStatus200 = true // a 200 status line was sent: the client may count PLAY as accepted
+				}
 				c.srv.Write([]byte("RTSP/1.0 200 OK\r\nCSeq: " + req.Get("CSeq") + "\r\nContent-Length: 500\r\n\r\nshort"))
 				c.srv.Close()
 				c.done = true
@@ -369,6 +373,17 @@ func pullScenario(cf cfgT, requesters int, secondRequest bool) func(x *vrt.Exec)
 				x.Failf("handshake-sequence", "%s: camera saw %v, want %s", name, ms, want)
 			}
 		}
+		// a stream may only come into being if some camera accepted the whole handshake: a refusal
+		// (at any step, also after an authentication round) must end as a failed request
+		anyPlayed := false
+		for _, c := range w.cams {
+			if c.played || c.playStatus200 {
+				anyPlayed = true
+			}
+		}
+		if (got != nil || anyOK) && !anyPlayed {
+			x.Failf("pull-succeeds-although-camera-refused", "%s [%s]: no camera answered PLAY with 200, yet GetOrCreate returned a stream=%v and the path resolves=%v", name, faults(), anyOK, got != nil)
+		}
 		if got != nil {
 			// success: packets sent by the camera reach a consumer that attaches now (GOP off: live only)
 			// and the stream is the one the requester was given
@@ -539,7 +554,7 @@ func main() {
 	rep.Assumptions = []string{"virtual time: a read without a deadline on a silent peer shows up as a thread blocked for ever", "sequentially consistent memory"}
 	runner.FineP = 1 // statement-level points in the files of fine.txt
 	if rep.Thorough() {
-		runner.FineP = 2
+		runner.FineP = 1
 	}
 	runner.Run(rep, scenarios(rep.Thorough()))
 	rep.Finish()
